@@ -19,6 +19,7 @@ pub enum LT {
     Opaque,         // anything else: carried as the source text
     OpFn,           // `fn(f64, f64) -> Value`: an operator closure handed to binary_op_impl
     VmT,            // the abstract interpreter state
+    Handler,        // object.rs ExcHandler
 }
 
 impl LT {
@@ -46,6 +47,7 @@ impl LT {
             LT::Struct(_) | LT::Opaque => "String".into(),
             LT::OpFn => "(UInt64 → UInt64 → Rs.M Rs.Value)".into(),
             LT::VmT => "Rs.Vm".into(),
+            LT::Handler => "Rs.Handler".into(),
         }
     }
     fn ity(&self) -> Option<&'static str> {
@@ -165,6 +167,8 @@ struct Cx<'a> {
     struct_params: BTreeMap<String, Ty>,
     /// translating a method of `Vm` over the abstract interpreter state `vm_ : Rs.Vm`
     vm_mode: bool,
+    /// … of `ObjFiber` (its own fields are the fiber part of that state)
+    fiber_mode: bool,
 }
 
 #[derive(Clone)]
@@ -176,6 +180,8 @@ pub struct Sig {
     pub plain: bool,
     /// a method whose only extra input is its receiver (`self` by value or by shared reference): callable as `recv.name(args)`
     pub self_only: bool,
+    /// for a method of a small struct passed by value (ExcHandler): the `self.<field>` places it reads, in input order
+    pub self_paths: Vec<String>,
 }
 
 fn lean_ident(s: &str) -> String {
@@ -211,6 +217,7 @@ impl<'a> Cx<'a> {
     fn conv(&mut self, t: &Ty) -> LT {
         match t {
             Ty::Ref(i) => self.conv(i),
+            Ty::RawPtr { inner, .. } if matches!(&**inner, Ty::Path { name, .. } if name == "u8") => LT::I("isize"),
             Ty::Slice(i) => LT::List(Box::new(self.conv(i))),
             Ty::Array(i, _) => LT::List(Box::new(self.conv(i))),
             Ty::Tuple(v) if v.is_empty() => LT::Unit,
@@ -225,6 +232,7 @@ impl<'a> Cx<'a> {
                     "Value" => LT::Value,
                     "str" | "String" => LT::Str,
                     "Error" => LT::ErrT,
+                    "ExcHandler" => LT::Handler,
                     "Self" => match self.self_ty.clone() {
                         Some(s) => self.conv(&Ty::path(&s, vec![])),
                         None => LT::Opaque,
@@ -435,12 +443,26 @@ impl<'a> Cx<'a> {
 
 /// The places of `Vm` that the abstract interpreter state `Rs.Vm` carries.
 fn vm_place(path: &str) -> Option<(&'static str, LT)> {
-    let p = path.replace("active_fiber_mut()", "active_fiber()");
+    let p = path.replace("active_fiber_mut()", "active_fiber()").replace("current_frame_mut()", "current_frame()");
+    // a method of ObjFiber sees its own fields directly
+    let p = if p.starts_with("self.") && !p.starts_with("self.active_") && !p.starts_with("self.ip") && !p.starts_with("self.handling") {
+        format!("self.active_fiber().{}", &p[5..])
+    } else {
+        p
+    };
     match p.as_str() {
         "self.ip" => Some(("vm_.ip", LT::I("isize"))),
+        "self.handling_exception" => Some(("vm_.handling", LT::Bool)),
         "self.active_chunk.constants" => Some(("vm_.consts", LT::List(Box::new(LT::Value)))),
+        "self.active_fiber().active_chunk.constants" => Some(("vm_.consts", LT::List(Box::new(LT::Value)))),
         "self.active_fiber().stack" => Some(("vm_.stack", LT::List(Box::new(LT::Value)))),
+        "self.active_fiber().exc_handlers" => Some(("vm_.handlers", LT::List(Box::new(LT::Handler)))),
+        "self.active_fiber().frames.len()" => Some(("vm_.frames", LT::I("usize"))),
+        "self.active_fiber().return_ip" => Some(("vm_.returnIp", LT::Opt(Box::new(LT::I("isize"))))),
+        "self.active_fiber().return_value" => Some(("vm_.returnValue", LT::Value)),
+        "self.active_fiber().error_ip" => Some(("vm_.errorIp", LT::Opt(Box::new(LT::Tup(vec![LT::I("isize"), LT::I("usize")]))))),
         "self.active_fiber().current_frame().unwrap().slot_base" => Some(("vm_.slotBase", LT::I("usize"))),
+        "self.active_fiber().current_frame().unwrap().ip" => Some(("vm_.frameIp", LT::I("isize"))),
         _ => None,
     }
 }
